@@ -833,8 +833,15 @@ func (b *Builder) ofOpt(v ssa.Value, at ssa.Instruction, depth int) *Term {
 }
 
 func (b *Builder) callTerm(v ssa.Value, c *ssa.CallCommon, depth int) *Term {
-	var at ssa.Instruction
-	if ins, ok := v.(ssa.Instruction); ok {
+	return b.callTermAt(v, c, nil, depth)
+}
+
+// callTermAt: at is the instruction itself when the call has no value (go / defer statements).
+func (b *Builder) callTermAt(v ssa.Value, c *ssa.CallCommon, at ssa.Instruction, depth int) *Term {
+	if cv, isCall := v.(*ssa.Call); isCall && cv == nil {
+		v = nil
+	}
+	if ins, ok := v.(ssa.Instruction); ok && at == nil {
 		at = ins
 	}
 	name := CalleeName(c)
@@ -1089,7 +1096,7 @@ func isEmptySlice(t *Term) bool {
 
 // CallTermAt is the term of a call instruction (also for go/defer).
 func (b *Builder) CallTermAt(ci ssa.CallInstruction) *Term {
-	return b.callTerm(ci.Value(), ci.Common(), 0)
+	return b.callTermAt(ci.Value(), ci.Common(), ci, 0)
 }
 
 // ConstGlobal returns the initial value term of an unexported package-level
